@@ -20,6 +20,9 @@ Strings travel as arrays of Unicode code points, integers as decimal strings.
   {"op":"nameat","off":n,"line":[..]}          -> {"v":[..]|null,"vtri":[..]|null,"rest":[..]|null}  (nameAt, nameAtTri, text after the literal)
   {"op":"linestrs","lines":[[..]..]}           -> {"lits":[[..]..]|null}       (all string literals of the lines; null if one does not lex)
   {"op":"bank","pre":[..],"suf":[..],"bank":[..]} -> {"line":[..]}
+  carrier K :=  {"c":C} | {"ite":[K,K]}
+  {"op":"carrier","k":K}                       -> {"paths":[[ty..]..],"storable":[b..]}   (Carrier.columnPaths, constants in source order)
+  {"op":"stored","c":C,"text":[..],"chain":[ty..]} -> {"holds":b,"why":s}      (StoredOk: literal of the constant, value kept through the types)
 Run: lake env lean --run FaxVerif/C18/Driver.lean
 -/
 import Lean.Data.Json
@@ -139,6 +142,35 @@ def specOn (c : PyConst) (out : Json) : Except String Json := do
       else return holds false s!"refused with {e}; a constant without C++ literal is refused with ValueError"
     else return holds false s!"a representable {kindName c} constant was refused ({e})"
 
+partial def parseCarrier (j : Json) : Except String Carrier := do
+  match j.getObjVal? "ite" with
+  | .ok a =>
+    match (← a.getArr?).toList with
+    | [x, y] => return .ite (← parseCarrier x) (← parseCarrier y)
+    | _ => throw "ite needs two carriers"
+  | .error _ => return .const (← parseConst (← j.getObjVal? "c"))
+
+def showVal : NVal → String
+  | .int n => s!"the integer {n}"
+  | .dbl b => s!"the double with bits {b}"
+  | .bool b => s!"{b}"
+
+/-- explanation of a failed `StoredOk`: the first conversion that loses the value -/
+def whyStored (c : PyConst) (text : Str) (chain : List CTy) : String :=
+  if !decide (ConstOk c text (litTy c)) then whyNot c text (litTy c)
+  else match valOf c with
+    | none => s!"a {kindName c} constant is converted to {chain.map (·.name)}: there is no conversion between a {kindName c} and an arithmetic type (C++ rejects the cast), the constant does not arrive"
+    | some v =>
+      let rec go (pre : List CTy) (cur : NVal) : List CTy → String
+        | [] => "the value is kept"
+        | t :: ts =>
+          match convTo t cur with
+          | none => s!"converting {showVal cur} to {t.name} (step {pre.length + 1} of {(pre.length + 1 + ts.length)}) is undefined or inexact: the constant does not arrive"
+          | some w =>
+            if !sameNum v w then s!"after conversion to {t.name} (step {pre.length + 1} of {pre.length + 1 + ts.length}) the value is {showVal w}, the constant is {showVal v}"
+            else go (pre ++ [t]) w ts
+      go [] v chain
+
 def jopt (o : Option Str) : Json := match o with | some v => jcps v | none => Json.null
 
 def handle (line : String) : String :=
@@ -218,6 +250,20 @@ def handle (line : String) : String :=
         if res.all Option.isSome then
           pure (Json.mkObj [("lits", Json.arr ((res.filterMap id).flatten.map jcps).toArray)])
         else pure (Json.mkObj [("lits", Json.null)])
+      else if op == "carrier" then
+        let k ← parseCarrier (← j.getObjVal? "k")
+        pure (Json.mkObj [
+          ("paths", Json.arr (k.columnPaths.map fun p => Json.arr (p.2.map fun t => Json.str t.name).toArray).toArray),
+          ("storable", Json.arr (k.consts.map fun c => Json.bool (decide (StorableConst c))).toArray)])
+      else if op == "stored" then
+        let c ← parseConst (← j.getObjVal? "c")
+        let text ← cps (← j.getObjVal? "text")
+        let names ← (← (← j.getObjVal? "chain").getArr?).toList.mapM fun x => x.getStr?
+        match names.mapM tyOfName with
+        | none => pure (holds false s!"a type among {names} is not an arithmetic C++ type this model knows")
+        | some chain =>
+          if decide (StoredOk c text chain) then pure (holds true "")
+          else pure (holds false (whyStored c text chain))
       else if op == "bank" then
         pure (Json.mkObj [("line", jcps (bankLine pyTable (← cps (← j.getObjVal? "pre")) (← cps (← j.getObjVal? "suf")) (← cps (← j.getObjVal? "bank"))))])
       else throw s!"unknown op {op}"
